@@ -150,11 +150,12 @@ def _run_block(args):
             'viols': viols, 'samples': samples, 'n': stop - start}
 
 
-def run_batch(chk, tier, batch_seed, runs, workers):
+def run_batch(chk, tier, batch_seed, runs, workers, start=0):
     pid = chk.ID
     block = chk.BLOCK
-    jobs = [(pid, batch_seed, tier, s, min(s + block, runs), runs)
-            for s in range(0, runs, block)]
+    stop = start + runs
+    jobs = [(pid, batch_seed, tier, s, min(s + block, stop), stop)
+            for s in range(start, stop, block)]
     agg = new_agg()
     block_digests = {}
     viols = []
@@ -351,6 +352,8 @@ def main(argv=None):
     ap.add_argument('--replay', default=None)
     ap.add_argument('--runs', type=int, default=None)
     ap.add_argument('--workers', type=int, default=None)
+    ap.add_argument('--start', type=int, default=0,
+                    help='first run index (self-tests: skip a sweep layer)')
     ap.add_argument('--no-evidence', action='store_true')
     ap.add_argument('--digest-only', action='store_true')
     ap.add_argument('--no-minimise', action='store_true')
@@ -387,7 +390,7 @@ def main(argv=None):
     print('check %s tier=%s VERIF_SEED=%d runs=%d workers=%d repo=%s' % (
         pid, tier, batch_seed, runs, workers, core.repo_root()))
     sys.stdout.flush()
-    out = run_batch(chk, tier, batch_seed, runs, workers)
+    out = run_batch(chk, tier, batch_seed, runs, workers, start=args.start)
     wall = time.time() - t0
     if args.digest_only:
         print('BATCH-DIGEST %s runs=%d' % (out['digest'], out['done']))
